@@ -604,6 +604,10 @@ func recognise(c Case, b *built, f *finding) string {
 	if os.Getenv("VERIF_C13_NORECOGNISE") != "" {
 		return "" // debugging aid: report catalogued mechanisms under their clause signature
 	}
+	if strings.HasPrefix(f.Clause, "chain-") {
+		// the second program's options count as triggers too
+		c.Program = append(append([]OptSpec{}, c.Program...), c.Chain...)
+	}
 	if i := strings.Index(f.Clause, "apply-panic@"); i >= 0 {
 		frame := f.Clause[i+len("apply-panic@"):]
 		noCreated := false
@@ -673,6 +677,20 @@ func recognise(c Case, b *built, f *finding) string {
 		// re-pushed referrer's subject carries it
 		if c.ChildData && hasKind(c, func(k string) bool { return k == "manifest-digest-algo" || k == "digest-algo" }) {
 			return "referrer-subject-keeps-stale-inline-data-after-digest-algo"
+		}
+	case "layer-mediatype-empty":
+		// an added layer that no step changed is pushed a second time with an empty descriptor when a
+		// whole-layer step is registered (no-op compression / digest algorithm): digest and size are filled
+		// in from the push, the media type stays empty
+		if hasKind(c, func(k string) bool { return k == "layer-add" }) &&
+			hasKind(c, func(k string) bool { return k == "layer-compress" || k == "layer-digest-algo" || k == "digest-algo" }) {
+			return "added-layer-empty-mediatype-after-noop-layer-step"
+		}
+	case "index-duplicate-entries-diverge":
+		// annotation-promote intersects the annotations IN the first child's own map; when another option
+		// serialises that child again it has lost its non-common annotations, its duplicate has not
+		if hasKind(c, func(k string) bool { return k == "annotation-promote" }) {
+			return "annotation-promote-deletes-annotations-of-first-child"
 		}
 	case "layer-mediatype-compression-mismatch":
 		// a layer rewritten by a file-level step after a compression change is encoded per its original media type
@@ -813,12 +831,11 @@ func check(c Case, ev *evid.Collector) *evid.Violation {
 	}
 	if c.Index != "" && c.EntryOrder != nil {
 		classes = append(classes, "shape:index-duplicate-child-digest")
-		last := c.EntryOrder[len(c.EntryOrder)-1]
 		notLast := false
-		for i, x := range c.EntryOrder[:len(c.EntryOrder)-1] {
-			for _, y := range c.EntryOrder[i+1:] {
-				if x == y && !(y == last && i+2 == len(c.EntryOrder) && false) {
-					notLast = notLast || i+1 < len(c.EntryOrder)-1 || c.Attest
+		for i, x := range c.EntryOrder {
+			for j := i + 1; j < len(c.EntryOrder); j++ {
+				if c.EntryOrder[j] == x && (j < len(c.EntryOrder)-1 || c.Attest) {
+					notLast = true
 				}
 			}
 		}
